@@ -548,6 +548,20 @@ func (p *Pool) Put(x any) {
 	p.items = append(p.items, x)
 }
 
+// ---------------------------------------------------------------- statement-level points (C11)
+
+// GCHook, when set by a harness, is called at every generated statement-level point of the library
+// (before every statement of every function): C11 uses it to place garbage collections between any
+// two statements of the decoder / encoder, not only at codec-call boundaries.
+var GCHook func(label string)
+
+// StmtPoint is called by generated instrumentation before every statement.
+func StmtPoint(label string) {
+	if h := GCHook; h != nil {
+		h(label)
+	}
+}
+
 // ---------------------------------------------------------------- Access hooks
 
 // Access is called by generated instrumentation before a statement that
